@@ -153,7 +153,7 @@ pub fn c05_c06(d: &Digest, s: usize, out: &mut Vec<Violation>) {
             if let OpK::Dispatch { act, .. } = c.op {
                 // DropOldest discards the oldest "to admit the new one": the new action always
                 // enters the queue (producers are serialised, the reducer only makes room)
-                if sd.model.policy == Policy::DropOldest && !sent && c.thr < MW_THR {
+                if sd.model.policy == Policy::DropOldest && !sent {
                     v(out, "C06", "new-action-not-admitted", format!("store {s} (DropOldest): dispatch of {act} returned without the action having entered the queue"));
                     break;
                 }
